@@ -53,3 +53,10 @@ Print Assumptions C01_shorted_branch_shorts.
 (* NOT YET PROVED (kept visible): spec_flatten : spec (norm t) = spec t up to field equality — independence of the
    construction route then follows from C03's parse (print t) = norm t.  It is checked per generated circuit on the
    implementation (parsed vs object-built, C01 harness). *)
+
+(* a series connection nested directly inside a series connection may be merged into it (the parser does this when it reads a
+   code): the impedance prescribed by the law is the same *)
+Theorem C01_series_flatten : forall (leaf : nat -> ez C) (a l b : list ctree),
+  cspec (CSer (a ++ CSer l :: b)) leaf = cspec (CSer (a ++ l ++ b)) leaf.
+Proof. exact series_flatten. Qed.
+Print Assumptions C01_series_flatten.
